@@ -382,6 +382,46 @@ def v11(rep, rule="V11"):
     rep.floor("key/branch runs moved together in btree.c", n, 6)
 
 
+def v13(rep):
+    """Keys are ordered by comparing them.  A three-way comparison written as the sign of a difference is only an ordering when
+    the difference is exact in the type it is looked at in: `(int)(k1 - k2)` on floating keys truncates every difference below
+    1 to `equal` (and wraps beyond 2^31), so a heap sifts the wrong way and hands out a key that is not the minimum; on 64-bit
+    keys the narrowed difference changes sign.  In the container units no subtraction of floating (or 64-bit integer) operands
+    is converted to a 32-bit integer."""
+    n = 0
+    nfun = 0
+    for unit in V10_UNITS:
+        f = common.extract(unit, all_trees=True)
+        for name, fn in sorted(f.funcs.items()):
+            if "body" not in fn or not fn.get("file", "").endswith(unit):
+                continue
+            nfun += 1
+            for x in walk(fn["body"]):
+                if x["k"] not in ("CStyleCastExpr", "ImplicitCastExpr") or x.get("tc") not in ("i32", "u32", "i16", "u16", "i8", "u8"):
+                    continue
+                inner = x["c"][0]
+                while inner is not None and inner["k"] == "ParenExpr":
+                    inner = inner["c"][0]
+                if inner is None or inner["k"] != "BinaryOperator" or inner["op"] != "-":
+                    continue
+                tc = inner.get("tc") or ""
+                if tc.startswith("f") or tc in ("i64", "u64"):
+                    # a pointer difference or an index difference narrowed for printing is not an ordering decision
+                    ops = [strip(inner["c"][0]), strip(inner["c"][1])]
+                    if tc in ("i64", "u64") and not all(o is not None and o["k"] in ("MemberExpr", "ArraySubscriptExpr", "DeclRefExpr") and
+                                                         any(y["k"] == "MemberExpr" and y["n"] in ("key", "hash") for y in walk(o)) for o in ops):
+                        continue
+                    n += 1
+                    rep.violation("V13", "order-by-comparison:%s:%s" % (unit, name), "%s:%d (%s)" % (unit, x["l"], name),
+                                  "the difference `%s` (%s) is converted to a %s-bit integer: as a three-way comparison of keys it "
+                                  "calls any two keys closer than 1 equal and wraps beyond 2^31, so the order the container keeps is "
+                                  "not the order of the keys (a priority queue returns 0.5 before 0.25)"
+                                  % (render(inner)[:50], "floating" if tc.startswith("f") else "64-bit", x.get("tc")[1:]))
+    rep.floor("functions of the container units scanned for narrowed differences", nfun, 120)
+    if n == 0:
+        rep.ok("V13", "order-by-comparison:none", sample={"functions": nfun})
+
+
 def v6(rep):
     """B-tree node layout: a node with n keys has n+1 branches, key j sits between branch j and branch j+1.  When a rotation moves
     the *last* key of a node (index n-1) out of it, the branch that goes with it is the last branch (index n); when it moves the
@@ -690,6 +730,7 @@ def run(tier, only=None):
     v9(rep)
     v10(rep)
     v11(rep)
+    v13(rep)
     try:
         v5(rep)
     except AnalysisBroken as e:
